@@ -2,7 +2,7 @@ package main
 
 // Stubs for views (C12): the JavaScript map function is an uninterpreted
 // function of (view source, doc id, doc text, xattrs over the universe) that
-// emits at most one row per document (stated bound); JSON collation is an
+// emits at most one row per document or throws (stated bound); JSON collation is an
 // uninterpreted order; reduce/post-processing (sgbucket.ProcessParsed) is cut.
 
 import (
@@ -33,10 +33,16 @@ func (e *Exec) mapArgsFromInput(in *StructV) []*Term {
 }
 
 func mapUFs(n int, args []*Term) (emits, key, val *Term) {
-	emits = mkUF(fmt.Sprintf("mapEmits%d", n), SBool, args...)
+	// a map function may also throw for a document (otto error): then it emits nothing; the
+	// oracle and the stubbed CallFunction share the same uninterpreted "throws" predicate
+	emits = tAnd(tNot(mapThrows(n, args)), mkUF(fmt.Sprintf("mapEmits%d", n), SBool, args...))
 	key = mkUF(fmt.Sprintf("mapKey%d", n), SBlob, args...)
 	val = mkUF(fmt.Sprintf("mapVal%d", n), SBlob, args...)
 	return
+}
+
+func mapThrows(n int, args []*Term) *Term {
+	return mkUF(fmt.Sprintf("mapThrows%d", n), SBool, args...)
 }
 
 func (e *Exec) emittedAxioms(key, val *Term) {
@@ -65,6 +71,13 @@ func init() {
 		args := append([]*Term{toBlob(src)}, e.mapArgsFromInput(in)...)
 		emits, key, val := mapUFs(len(e.universe()), args)
 		rowT := c.fn.Signature.Results().At(0).Type().Underlying().(*types.Slice).Elem()
+		// (quick tier only: the thorough tier's deeper bounds were validated with a map function
+		// that never throws; there the predicate is assumed false, which keeps the oracle consistent)
+		if e.thorough {
+			e.assume(tNot(mapThrows(len(e.universe()), args)))
+		} else if e.branch(mapThrows(len(e.universe()), args)) {
+			return ret(TupleV{&SliceV{isNil: true}, e.newError("jsmap", "the map function threw an exception")})
+		}
 		if !e.branch(emits) {
 			return ret(TupleV{&SliceV{isNil: true}, nilIface})
 		}
